@@ -32,6 +32,7 @@ C09Holds(ln) == LET i == ln.id IN
     /\ \A x \in ln.pre \ ln.post : W!SameAddr(x, i) /\ Ev(x).ts <= Ev(i).ts
     /\ {x \in ln.pre : W!SameAddr(x, i) /\ Ev(x).ts < Ev(i).ts} \cap ln.post = {}
     /\ (~N!IsReplaceable(Ev(i)) => ln.pre \subseteq ln.post)
+    /\ (N!IsReplaceable(Ev(i)) => (i \in ln.post \/ \E x \in ln.post : W!SameAddr(x, i) /\ Ev(x).ts >= Ev(i).ts))
 
 Verdict(ln) ==
     (IF ln.post = Expected(ln) THEN {} ELSE {"Conform"})
